@@ -124,6 +124,10 @@ func canon(v ssa.Value, onPhi map[ssa.Value]bool, cross bool) ssa.Value {
 			}
 			v = st[0].Val
 		case *ssa.Parameter:
+			if b, ok := activeBinding[x]; ok && b != nil {
+				v = b
+				continue
+			}
 			if !cross {
 				return v
 			}
@@ -631,4 +635,38 @@ func SymString(v ssa.Value) (parts []SymPart, ok bool) {
 	}
 	walk(v, 0)
 	return parts, ok
+}
+
+// ---------------------------------------------------------------------------------
+// parameter bindings (predicate helpers)
+
+// Binding maps parameters of an extracted predicate helper to the arguments of the call
+// at hand. While a binding is active (Bind), Canon resolves those parameters to the
+// arguments, so that rule matchers written over the caller's values also match the
+// comparisons made inside the helper.
+type Binding map[*ssa.Parameter]ssa.Value
+
+var activeBinding Binding
+
+// Bind activates b in addition to the active binding and returns the function that
+// restores the previous state. Conflicting entries (one parameter, two arguments) are
+// dropped from the result: the helper's comparisons then simply do not match.
+func Bind(b Binding) func() {
+	prev := activeBinding
+	if len(b) == 0 {
+		return func() {}
+	}
+	n := Binding{}
+	for k, v := range prev {
+		n[k] = v
+	}
+	for k, v := range b {
+		if old, ok := n[k]; ok && old != v {
+			n[k] = nil
+			continue
+		}
+		n[k] = v
+	}
+	activeBinding = n
+	return func() { activeBinding = prev }
 }
